@@ -52,6 +52,8 @@ def run(ctx):
     skippers.binary_arm_reader_accepts_any_bytes(rep, 'R12.b', prog, cg)
     # the compact reader's field-id context / bool-in-header state is kept the same way by the in-memory and the async reader
     tp.compact_typestate(rep, 'R12.t', prog, cg)
+    import thrift_pairs as tp_m
+    tp_m.map_header_order(rep, 'R12.m', prog, cg)
     rep.floor('R12.a', 66)
     rep.floor('R12.c', 20)
     rep.floor('R12.b', 28)
